@@ -53,7 +53,9 @@ def build_tools(rep):
         src = os.path.join(V, 'harness', 'cmd', name)
         if not os.path.exists(os.path.join(src, 'main.go')):
             continue
-        rc, out = sh(['go', 'build', '-tags', 'verif', '-o', os.path.join(BUILD, name), './cmd/' + name],
+        # built with statement-coverage counters for the corebgp package: the evidence reports how much of the
+        # anchored Go code the run really executed
+        rc, out = sh(['go', 'build', '-cover', '-coverpkg=github.com/jwhited/corebgp,verif/harness/cmd/' + name, '-tags', 'verif', '-o', os.path.join(BUILD, name), './cmd/' + name],
                      cwd=os.path.join(V, 'harness'), env=GOENV, timeout=900)
         if rc:
             ok = False
@@ -159,6 +161,12 @@ def lean_obligations(rep):
         else:
             rep.discharged.append(n)
             rep.axioms[n] = r['axioms']
+    # thorough tier: independent re-check of the compiled modules with leanchecker
+    if rep.tier == 'thorough':
+        rc, out = sh(['lake', 'env', 'leanchecker'] + mods, cwd=LEAN, timeout=3600)
+        rep.extra['leanchecker'] = 'ok' if rc == 0 else 'FAILED: ' + out[-400:]
+        if rc:
+            rep.broken.append(('audit', 'leanchecker rejected the compiled modules', out[-1500:]))
     # textual backup of the audit
     for m in mods:
         src = open(os.path.join(LEAN, m.replace('.', '/') + '.lean')).read()
@@ -198,9 +206,13 @@ def l0_pipeline(args, tag):
     return out, None
 
 
+COVDIR = os.path.join(WORK, 'cov')
+
+
 def subprocess_run_to(fout, cmd, stdin=None):
     import subprocess
-    p = subprocess.run(cmd, stdin=stdin, stdout=fout, stderr=subprocess.PIPE, env=GOENV)
+    os.makedirs(COVDIR, exist_ok=True)
+    p = subprocess.run(cmd, stdin=stdin, stdout=fout, stderr=subprocess.PIPE, env=dict(GOENV, GOCOVERDIR=COVDIR))
     if p.returncode:
         sys.stderr.write(p.stderr.decode(errors='replace')[-2000:])
     return p.returncode
@@ -556,6 +568,32 @@ def verdict(rep):
     return lines, nviol
 
 
+def go_coverage(rep):
+    """statement coverage of the property's anchored files, measured on this run"""
+    if not os.path.isdir(COVDIR) or not os.listdir(COVDIR):
+        return
+    rc, out = sh(['go', 'tool', 'covdata', 'func', '-i=' + COVDIR], env=GOENV, timeout=300)
+    if rc:
+        return
+    files = set()
+    try:
+        for l in open(os.path.join(V, 'properties.jsonl')):
+            pr = json.loads(l)
+            if pr['id'] == rep.pid:
+                files = set(pr['anchors']['files'])
+    except OSError:
+        pass
+    cov, tot = {}, {}
+    for l in out.split('\n'):
+        m = re.match(r'^\S*/([\w.]+\.go):\d+:\s+(\S+)\s+([\d.]+)%$', l.strip())
+        if m and m.group(1) in files and not m.group(1).startswith('verif_'):
+            pct = float(m.group(3))
+            cov[m.group(1) + ':' + m.group(2)] = pct
+    if cov:
+        rep.extra['go_statement_coverage_of_anchored_functions'] = {k: v for k, v in sorted(cov.items()) if v > 0}
+        rep.extra['go_functions_in_anchored_files_not_executed'] = sorted(k for k, v in cov.items() if v == 0)
+
+
 def write_evidence(rep, nviol):
     os.makedirs(EVIDENCE, exist_ok=True)
     cfg = P.PROPS[rep.pid]
@@ -586,6 +624,7 @@ def write_evidence(rep, nviol):
 def run_check(pid, tier, seed):
     rep = Report(pid, tier, seed)
     cfg = P.PROPS[pid]
+    shutil.rmtree(COVDIR, ignore_errors=True)
     tools_ok = build_tools(rep)
     driver_ok = lean_obligations(rep)
     if tools_ok and driver_ok:
@@ -598,6 +637,7 @@ def run_check(pid, tier, seed):
         for eng in cfg.get('engines', []):
             eng(rep)
     lines, nviol = verdict(rep)
+    go_coverage(rep)
     write_evidence(rep, nviol)
     for l in lines:
         print(l)
